@@ -141,6 +141,7 @@ theorem step_store_or_same {O : Oracle} {c : Conf} {s : State} {op : Op} (h : In
   | sleep d => exact .inr ⟨rfl, rfl⟩
   | restart => exact absurd rfl hne
   | reorder d => exact absurd rfl (hnr d)
+  | resetLeases => exact .inl ⟨_, rfl⟩
 
 /-- One step other than a restart keeps (or re-establishes) the mirror. -/
 theorem Mirror_step {O : Oracle} {c : Conf} {s : State} {op : Op} (h : Inv c s) (hm : Mirror s)
